@@ -103,6 +103,20 @@ static void spaceTriples(vf::Runner& R, int L) {
   }, 5.0);
 }
 template<class T> static std::vector<T> iota1(int n) { std::vector<T> v((size_t)n); for (int i = 0; i < n; ++i) v[(size_t)i] = (T)(i + 1); return v; }
+// weighted mean of integer vectors (values and weights share the element type): every value vector over {-2..2}^n and weight vector over
+// {1,2,3}^n, n <= 3, against the exact rational sum(v w)/sum(w), with and without normalisation of the weights
+static void spaceIntWeightedMean(vf::Runner& R) {
+  uint64_t tot = 0; std::vector<uint64_t> off; for (int n = 1; n <= 3; ++n) { off.push_back(tot); uint64_t k = 1; for (int i = 0; i < n; ++i) k *= 15; tot += k * 2; }
+  R.space("weighted-mean:int:values{-2..2}^n:weights{1,2,3}^n:n<=3:normalise2", tot, [=](uint64_t idx, vf::Case& c) {
+    int n = 3; while (idx < off[(size_t)n - 1]) --n; uint64_t k = idx - off[(size_t)n - 1]; bool norm = k % 2; k /= 2;
+    std::vector<int> v((size_t)n), w((size_t)n); long long sw = 0, svw = 0;
+    for (int i = 0; i < n; ++i) { v[(size_t)i] = (int)(k % 5) - 2; k /= 5; w[(size_t)i] = (int)(k % 3) + 1; k /= 3; sw += w[(size_t)i]; svw += (long long)v[(size_t)i] * w[(size_t)i]; }
+    std::string in = std::string("mean<int,double>(") + vf::vstr(std::vector<double>(v.begin(), v.end())) + ", weights " + vf::vstr(std::vector<double>(w.begin(), w.end())) + ", normalizeWeights=" + (norm ? "true" : "false") + ")";
+    c.site("mean(v,w) [int]"); c.nontrivial();
+    double got = VT::mean<int, double>(v, w, norm), want = norm ? (double)svw / (double)sw : (double)svw;
+    if (!(std::fabs(got - want) <= 8 * DBL_EPSILON * std::max(1.0, std::fabs(want)))) c.fail("mean(v,w)|value|integer-elements", in + " = " + vf::num(got) + ", definition " + vf::num(want));
+  }, 5.0);
+}
 // length combinations for every function with a size requirement; contents 1,2,3 (weights 1,2,3): one function per case
 static void spaceShapes(vf::Runner& R) {
   const int NF2 = 19;
@@ -349,7 +363,7 @@ int main(int argc, char** argv) {
   int L = th ? 7 : 5;
   g_allTies = th;
   spaceUnary<int>(R, L); spaceUnary<double>(R, L); spaceUnaryDoubleExtra(R, L);
-  spaceShapes(R);
+  spaceShapes(R); spaceIntWeightedMean(R);
   spacePairs<int>(R, 3); spacePairs<double>(R, 3);
   spaceWeighted(R, 3); spaceTriples(R, 3);
   spaceSeq(R);
